@@ -357,12 +357,16 @@ namespace TAO_PEGTL_NAMESPACE
 
       [[nodiscard]] const char* at( const TAO_PEGTL_NAMESPACE::position& p ) const noexcept
       {
-         return this->begin() + p.byte;
+         // The byte counter does not have to start at zero, see the constructors with initial counters.
+         return ( p.byte < this->byte() ) ? ( this->current() - ( this->byte() - p.byte ) ) : ( this->current() + ( p.byte - this->byte() ) );
       }
 
       [[nodiscard]] const char* begin_of_line( const TAO_PEGTL_NAMESPACE::position& p ) const noexcept
       {
-         return at( p ) - ( p.column - 1 );
+         // On the first line the column counter does not have to start at one either.
+         const char* const a = at( p );
+         const std::size_t c = p.column - 1;
+         return ( std::size_t( a - this->begin() ) < c ) ? this->begin() : ( a - c );
       }
 
       [[nodiscard]] const char* end_of_line( const TAO_PEGTL_NAMESPACE::position& p ) const noexcept
